@@ -1653,13 +1653,18 @@ Proof. unfold copier_outcome. destruct sc, dc; simpl; try reflexivity. destruct 
 (* ------------------------------------------------------------------------------------------ *)
 (* open dispositions *)
 
-Definition oflags_norm_eqb (a b : oflags) : bool :=
-  Bool.eqb (o_creat a) (o_creat b) && Bool.eqb (o_creat a && o_excl a) (o_creat b && o_excl b)
-  && Bool.eqb (o_trunc a) (o_trunc b) && Bool.eqb (o_append a) (o_append b).
+(* what an open does, independent of the content: (succeeds on an absent file, on an existing file:
+   0 fails / 1 empties it / 2 keeps it), and whether writes append *)
+Definition open_class (f : oflags) : bool * Z * bool :=
+  (o_creat f, if o_creat f && o_excl f then 0 else if o_trunc f then 1 else 2, o_append f).
 
-Lemma posix_open_norm a b existing : oflags_norm_eqb a b = true -> posix_open a existing = posix_open b existing.
+Definition open_class_eqb (a b : bool * Z * bool) : bool :=
+  Bool.eqb (fst (fst a)) (fst (fst b)) && (snd (fst a) =? snd (fst b)) && Bool.eqb (snd a) (snd b).
+
+Lemma posix_open_class a b existing : open_class_eqb (open_class a) (open_class b) = true ->
+  posix_open a existing = posix_open b existing.
 Proof.
-  destruct a as [c1 e1 t1 a1], b as [c2 e2 t2 a2]. unfold oflags_norm_eqb, posix_open. simpl.
+  destruct a as [c1 e1 t1 a1], b as [c2 e2 t2 a2]. unfold open_class_eqb, open_class, posix_open. simpl.
   destruct c1, c2, e1, e2, t1, t2; simpl; intros H; try discriminate; destruct existing; reflexivity.
 Qed.
 
@@ -1673,7 +1678,7 @@ Qed.
 
 (* every pflags value of the six defined bits, every version: a v5/v6 session opens like a v3 one *)
 Lemma session_open_same_table :
-  forallb (fun pflags => oflags_norm_eqb (session_open 6 pflags) (session_open 3 pflags)) (upto 64) = true.
+  forallb (fun pflags => open_class_eqb (open_class (session_open 6 pflags)) (open_class (session_open 3 pflags))) (upto 64) = true.
 Proof. vm_compute. reflexivity. Qed.
 
 Lemma session_open_version_independent version pflags existing : 0 <= pflags < 64 ->
@@ -1682,7 +1687,7 @@ Proof.
   intros H. unfold session_open at 1. destruct (5 <=? version) eqn:E; [|reflexivity].
   pose proof session_open_same_table as Ht. rewrite forallb_forall in Ht.
   specialize (Ht pflags (upto_in 64 pflags H)).
-  apply posix_open_norm. exact Ht.
+  apply posix_open_class. exact Ht.
 Qed.
 
 (* a destination opened with mode 'wb' is empty before the first write, whatever it held *)
